@@ -194,6 +194,15 @@ def _dom_quicksort(tier, seed):
         n = rng.randint(0, 40)
         yield dict(args=[np.array([rng.randint(-5, 5) for _ in range(n)], dtype="i8")])
         yield dict(args=[np.array(sorted(rng.random() for _ in range(n)))])
+        # every numerical element type, values up to the ends of its range; unordered floats; descending input
+        dt = np.dtype(rng.choice(["u1", "u2", "u4", "u8", "i1", "i2", "i4", "i8", "f4", "f8"]))
+        if dt.kind == "f":
+            vals = [rng.choice([0.0, -0.0, 1.5, -1.5, rng.uniform(-1e30, 1e30), float("inf"), float("-inf")]) for _ in range(n)]
+        else:
+            info = np.iinfo(dt)
+            vals = [rng.choice([info.min, info.max, info.max // 2, info.min // 2, 0, 1, 8, rng.randint(info.min, info.max)]) for _ in range(n)]
+        yield dict(args=[np.array(vals, dtype=dt)])
+        yield dict(args=[np.array(sorted(vals, reverse=True), dtype=dt)])
 
 
 @domain("esutil.algorithm.quicksort_keyvalue")
@@ -206,6 +215,14 @@ def _dom_quicksort_kv(tier, seed):
     for k in range(50 if tier == "quick" else 2000):
         n = rng.randint(0, 40)
         yield dict(args=[[rng.randint(-5, 5) for _ in range(n)], [rng.randint(0, 3) for _ in range(n)]])
+        import numpy as np
+        dt = np.dtype(rng.choice(["u1", "u2", "u8", "i1", "i8", "f8"]))
+        if dt.kind == "f":
+            keys = [rng.uniform(-3, 3) for _ in range(n)]
+        else:
+            info = np.iinfo(dt)
+            keys = [rng.choice([info.min, info.max, 0, 8, rng.randint(info.min, info.max)]) for _ in range(n)]
+        yield dict(args=[np.array(keys, dtype=dt), np.arange(n)])
 
 
 @domain("esutil.algorithm.partition_keyvalue")
